@@ -322,6 +322,50 @@ Section Weight.
     count_verifies (snd (access U C n ds inv)) <= paths_weight n inv.
   Proof. apply claim_cost. Qed.
 
+  (* the weight grows with the fuel (it counts paths of bounded length), so the weight at any
+     larger fuel bounds the work too: fuel never makes the bound true by cutting the weight *)
+  Lemma vw_mono (f g : list dlg -> N) d sibs : (forall l, f l <= g l) -> vw f d sibs <= vw g d sibs.
+  Proof.
+    intros H. unfold vw. destruct (tok d) as [t|]; [|lia]. destruct (live d); [|lia].
+    destruct (direct_iss t); [lia|]. specialize (H (session_candidates U d sibs)). lia.
+  Qed.
+
+  Lemma aw_mono (f g : list dlg -> N) : (forall l, f l <= g l) ->
+    forall n d, aw f n d <= aw g n d /\ aw f n d <= aw g (S n) d.
+  Proof.
+    intros H. induction n as [|n IH]; intros d; [cbn [aw]; split; lia|].
+    split.
+    - cbn [aw]. destruct (tok d) as [t|]; [|lia]. apply sumN_le. intros p _.
+      pose proof (vw_mono f g p (aligned U t (proofs_view U C d t)) H). destruct (IH p). nia.
+    - change (aw f (S n) d) with
+        (match tok d with None => 0 | Some t =>
+           sumN (fun p => vw f p (aligned U t (proofs_view U C d t)) + ncaps p * aw f n p)
+                (aligned U t (proofs_view U C d t)) end).
+      change (aw g (S (S n)) d) with
+        (match tok d with None => 0 | Some t =>
+           sumN (fun p => vw g p (aligned U t (proofs_view U C d t)) + ncaps p * aw g (S n) p)
+                (aligned U t (proofs_view U C d t)) end).
+      destruct (tok d) as [t|]; [|lia]. apply sumN_le. intros p _.
+      pose proof (vw_mono f g p (aligned U t (proofs_view U C d t)) H). destruct (IH p). nia.
+  Qed.
+
+  Lemma cw_mono_S : forall n l, cw n l <= cw (S n) l.
+  Proof.
+    induction n as [|n IH]; intros l; [cbn [cw]; lia|].
+    change (cw (S n) l) with (cw_body (cw n) n l). change (cw (S (S n)) l) with (cw_body (cw (S n)) (S n) l).
+    unfold cw_body. apply sumN_le. intros p _.
+    pose proof (vw_mono (cw n) (cw (S n)) p l IH). destruct (aw_mono (cw n) (cw (S n)) IH n p). nia.
+  Qed.
+
+  Lemma paths_weight_mono n m inv : (n <= m)%nat -> paths_weight n inv <= paths_weight m inv.
+  Proof.
+    unfold paths_weight. induction 1 as [|m _ IH]; [lia|]. pose proof (cw_mono_S m [inv]). lia.
+  Qed.
+
+  Corollary access_cost_any_fuel n m ds inv : (n <= m)%nat ->
+    count_verifies (snd (access U C n ds inv)) <= paths_weight m inv.
+  Proof. intros H. pose proof (access_cost n ds inv). pose proof (paths_weight_mono n m inv H). lia. Qed.
+
   (* (b) sharing and alternatives are the only source of a blow-up: whenever the path
      weight is within the quadratic bound, so is the work *)
   Corollary access_quadratic_if_weight n ds inv (k : N) :
@@ -1419,3 +1463,7 @@ Proof. intros Hw Hd Hn. split; [apply lay_delegations | exact (lay_exceeds_quadr
 
 Theorem refuted_family (w : nat) : (2 <= w)%nat -> exists d, ~ quadratic_bound (lay_world false w d).
 Proof. intros Hw. exists 10%nat. exact (quadratic_bound_refuted_family w Hw). Qed.
+
+(* chains under run_world's fixed fuel (40): every depth it can handle *)
+Theorem chain_cost_run_world (ok : bool) d : (d <= 38)%nat -> verifications (chain ok d) = N.of_nat d + 1.
+Proof. intros H. rewrite verifications_at_fuel. apply chain_cost. unfold fuel. lia. Qed.
